@@ -290,6 +290,10 @@ class StmtBoundaryDepth(Monitor):
         self.stmt_starts = {}
         for rec in di.stmts:
             if rec.end_offset - rec.start_offset > 0:
+                if type(rec.node).__name__.endswith('Clause'):
+                    # CASE clauses get records of their own but are parts of one CASE statement: the
+                    # result of the previous clause is legitimately on the stack when the next one starts
+                    continue
                 d = cpu.instr_at.get(rec.start_offset)
                 if d is not None and d[1] == 'frame':
                     continue
